@@ -119,6 +119,11 @@ def make_def(U, rng, idx):
     zc_params = set()
     if copy != "zero" and rng.random() < 0.5:
         tparams = rng.sample(["A", "B", "P"], rng.choice([1, 1, 2]))
+    elif copy == "zero" and rng.random() < 0.3:
+        # a generic zero-copy type: its parameters are bounded by ZeroCopy and instantiated with
+        # zero-copy types (primitives, arrays, tuples, other zero-copy definitions)
+        tparams = rng.sample(["A", "B"], rng.choice([1, 1, 2]))
+        zc_params = set(tparams)
     if rng.random() < 0.2:
         ct = rng.choice(["usize", "u8", "bool", "char", "i32", "u64"])
         cv = {"bool": rng.choice([0, 1]), "char": rng.choice([0x41, 0x3b1, 0x1F600])}.get(ct, rng.choice([0, 1, 3, 7, 200]))
@@ -146,6 +151,10 @@ def make_def(U, rng, idx):
             if u == "bare":
                 for _ in range(rng.choice([1, 1, 2])):
                     ftypes.insert(rng.randrange(len(ftypes) + 1), ("param", p))
+            elif u == "inside" and p in zc_params:
+                w = rng.choice([("arr", 2, ("param", p)), ("tup", 2, ("param", p)), ("arr", 0, ("param", p)), ("tup", 1, ("param", p))])
+                ftypes.insert(rng.randrange(len(ftypes) + 1), w)
+                continue
             elif u == "inside":
                 w = rng.choice([("vec", ("param", p)), ("opt", ("vec", ("param", p))), ("arr", 2, ("param", p)),
                                 ("bslice", ("param", p))])
@@ -186,12 +195,15 @@ def make_def(U, rng, idx):
             bounds[p] = rng.choice(["Clone", "core::fmt::Debug", "Clone + core::fmt::Debug"])
         if usage[p] != "phantom" and rng.random() < 0.3 and p not in bounds:
             where.append("%s: %s" % (p, rng.choice(["Clone", "core::fmt::Debug + Clone"])))
+    for p in zc_params:
+        bounds[p] = "ZeroCopy" + ((" + " + bounds[p]) if p in bounds else "")
     if tparams and not cparams and rng.random() < 0.25:
         p = tparams[-1]
         defaults[p] = ("prim", rng.choice(["u32", "u64", "i16"])) if usage[p] != "inside" or True else ("prim", "u8")
     d = Def(name, kind, copy, reprs, tparams, cparams, body, style=style, bounds=bounds,
             defaults=defaults, where=where, align=align)
     d.usage = usage
+    d.zc_params = zc_params
     return d
 
 
